@@ -42,7 +42,10 @@ Arguments cc_w {A} c. Arguments cc_v {A} c. Arguments cc_n {A} c. Arguments cc_a
 Arguments Build_cost_cfg {A} cc_w cc_v cc_n cc_agg.
 Inductive op : Set :=
 | OForward (es : list nat) | OReverse (es : list nat) | OVia (fwd rev : list nat)
-| OMulti (ess : list (list nat)).   (* several routes (returned by one real search), each re-traversed from the initial state *)
+| OMulti (ess : list (list nat))    (* several routes (returned by one real search), each re-traversed from the initial state *)
+| OEdge (source target : nat) (inners : list (list nat)).
+    (* the routes returned by one real EDGE-ORIENTED search between two non-adjacent edges: each is the re-traversal of
+       its inner edges framed by the zero-cost source and target edges (Traversal.compose_edge_oriented) *)
 
 Record case_t (A : Type) : Type :=
   { c_nv : nat; c_edges : list (nat * nat * A);
@@ -79,9 +82,12 @@ Definition build (N : Num) (c : case_t N) : res (instance N * Cost.cost_model N)
 
 Inductive outcome (A : Type) : Type :=
 | OBuildErr (cls : string)
-| ORoutes (rs : list (string * res (list (etrav A)))) (totals : list (list A)) (summary : res (list (string * A))).
+| ORoutes (rs : list (string * res (list (etrav A)))) (totals : list (list A)) (summary : res (list (string * A)))
+| OMultiRoutes (rs : list (string * res (list (etrav A)))) (totals : list (list A))
+               (summaries : list (res (list (string * A)))).
+    (* the routes of ONE response (OMulti / OEdge): every route has its own traversal_summary *)
     (* totals: EdgeTraversal::total_cost() of every edge of every route that exists, in the order of [rs] *)
-Arguments OBuildErr {A} cls. Arguments ORoutes {A} rs totals summary.
+Arguments OBuildErr {A} cls. Arguments ORoutes {A} rs totals summary. Arguments OMultiRoutes {A} rs totals summaries.
 
 Definition summary_of (N : Num) (c : case_t N) (inst : instance N) (route : list (etrav N)) : res (list (string * N)) :=
   if negb (c_summary c) then Err "not rendered"
@@ -99,6 +105,12 @@ Definition run (N : Num) (c : case_t N) : outcome N :=
                                    | Ok l => map (total_cost N (i_cost inst)) l
                                    | _ => []
                                    end) rs) s in
+      let mkm rs :=
+        OMultiRoutes rs (map (fun nr => match snd nr with
+                                        | Ok l => map (total_cost N (i_cost inst)) l
+                                        | _ => []
+                                        end) rs)
+                     (map (fun nr => match snd nr with Ok l => summary_of N c inst l | _ => Err "no route" end) rs) in
       match c_op c with
       | OForward es =>
           let r := run_forward N inst None init es in
@@ -115,8 +127,12 @@ Definition run (N : Num) (c : case_t N) : outcome N :=
           | _, _ => mk [("fwd", rf); ("rev", rr)] (Err "no route")
           end
       | OMulti ess =>
-          mk (map (fun kes => (("r" ++ show_nat (fst kes))%string, run_forward N inst None init (snd kes)))
-                  (combine (seq 0 (List.length ess)) ess)) (Err "not rendered")
+          mkm (map (fun kes => (("r" ++ show_nat (fst kes))%string, run_forward N inst None init (snd kes)))
+                   (combine (seq 0 (List.length ess)) ess))
+      | OEdge s t ess =>
+          mkm (map (fun kes => (("r" ++ show_nat (fst kes))%string,
+                                do l <- run_forward N inst None init (snd kes); compose_edge_oriented N inst s t l))
+                   (combine (seq 0 (List.length ess)) ess))
       end
   | Err cls => OBuildErr cls
   | Panic _ => OBuildErr "Panic"
@@ -148,6 +164,9 @@ Section Show.
     | ORoutes rs ts s =>
         join " " (map (fun nrt => fst (fst nrt) ++ "=" ++ show_route (snd (fst nrt)) ++ "/" ++ show_list sh (snd nrt))
                       (combine rs ts)) ++ " sum=" ++ show_summary s
+    | OMultiRoutes rs ts ss =>
+        join " " (map (fun nrt => fst (fst nrt) ++ "=" ++ show_route (snd (fst nrt)) ++ "/" ++ show_list sh (snd nrt))
+                      (combine rs ts)) ++ " sums=" ++ show_list show_summary ss
     end.
 End Show.
 
@@ -432,6 +451,90 @@ Definition obs_route (rts : list ((string * res (list (etrav float))) * list flo
   | None => (Err "missing"%string, [])
   end.
 
+(* one route of an edge-oriented result: source edge (zero cost, declared initial state, bit for bit), the inner
+   edges judged like any forward route from the initial state, target edge (zero cost, the state of the last inner
+   edge, bit for bit); total_cost() of the two end edges is the floor of zero *)
+Fixpoint split_last {A} (l : list A) : option (list A * A) :=
+  match l with
+  | [] => None
+  | [x] => Some ([], x)
+  | x :: r => match split_last r with Some (m, z) => Some (x :: m, z) | None => None end
+  end.
+Definition same_floats (a b : list float) : bool :=
+  Nat.eqb (List.length a) (List.length b)
+  && forallb (fun p => String.eqb (show_float (fst p)) (show_float (snd p))) (combine a b).
+Definition zero_cost_end (e : nat) (st : list float) (o : etrav float) (tot : float) : bool :=
+  Nat.eqb (et_edge o) e
+  && String.eqb (show_float (et_access o)) "+0" && String.eqb (show_float (et_trav o)) "+0"
+  && same_floats (et_state o) st
+  && String.eqb (show_float tot) (show_float (Cost.enforce_strictly_positive FN PrimFloat.zero)).
+Definition judge_edge_route (inst : instance Q) (cm : Cost.cost_model Q) (K : consts) (a0 : acc) (impl_init : list float)
+           (source target : nat) (inner : list nat) (obs : res (list (etrav float)) * list float)
+  : (acc * string) + string :=
+  match fst obs, snd obs with
+  | Ok (first :: rest), t0 :: trest =>
+      match split_last rest, split_last trest with
+      | Some (mid, lst), Some (tmid, tl) =>
+          if negb (zero_cost_end source impl_init first t0)
+          then inr "REJECT(origin edge of an edge-oriented route: not zero cost with the declared initial state)"%string
+          else match judge_route inst cm K Forward a0 inner (Ok mid, tmid) with
+               | inr s0 => inr s0
+               | inl (a', _) =>
+                   if negb (zero_cost_end target (last_state mid impl_init) lst tl)
+                   then inr "REJECT(destination edge of an edge-oriented route: not zero cost with the state after the last edge of THIS route)"%string
+                   else inl (a', (show_route show_float (fst obs) ++ "/" ++ show_list show_float (snd obs))%string)
+               end
+      | _, _ => inr "REJECT(edge-oriented route without its end edges)"%string
+      end
+  | Ok _, _ => inr "REJECT(edge-oriented route without its end edges)"%string
+  | _, _ => inr "REJECT(implementation failed where the property expects a route)"%string
+  end.
+
+Definition init_ok (inst : instance Q) (impl_init : list float) : bool :=
+  let init := initial_state (i_sm inst) in
+  Nat.eqb (List.length init) (List.length impl_init)
+  && forallb (fun p => Qeq_bool (fst p) (qf (snd p)) && finite (snd p)) (combine init impl_init).
+Definition piece (name : string) (r : (acc * string) + string) : string :=
+  (name ++ "=" ++ match r with inl (_, s) => s | inr s => s end)%string.
+Definition route_names (n : nat) : list string := map (fun k => ("r" ++ show_nat k)%string) (seq 0 n).
+
+(* the routes of one response: every route against ITS OWN edges, every summary against the last state of ITS OWN route *)
+Definition judge_multi (c : case_t Q) (inst : instance Q) (cm : Cost.cost_model Q) (impl_init : list float)
+           (rs0 : list (string * res (list (etrav float)))) (ts0 : list (list float))
+           (ss : list (res (list (string * float)))) : string :=
+  let rs := combine rs0 ts0 in
+  let K := consts_of inst cm in
+  let a0 := Build_acc 0%Z 0%Z 0%Z None impl_init in
+  let verdicts : option (list (string * ((acc * string) + string))) :=
+    match c_op c with
+    | OMulti ess => Some (map (fun ne => (fst ne, judge_route inst cm K Forward a0 (snd ne) (obs_route rs (fst ne))))
+                              (combine (route_names (List.length ess)) ess))
+    | OEdge src dst ess =>
+        Some (map (fun ne => (fst ne, judge_edge_route inst cm K a0 impl_init src dst (snd ne) (obs_route rs (fst ne))))
+                  (combine (route_names (List.length ess)) ess))
+    | _ => None
+    end in
+  if negb (init_ok inst impl_init) then "REJECT(initial state is not the declared one)"%string
+  else
+  match verdicts with
+  | None => "REJECT(several routes for an operation that has one)"%string
+  | Some vs =>
+      if negb (Nat.eqb (List.length vs) (List.length rs0) && Nat.eqb (List.length ss) (List.length rs0))
+      then "REJECT(number of routes / summaries)"%string
+      else
+        let sums := map (fun vs' => match snd (fst vs') with
+                                    | inl _ => judge_summary c inst (rget (fst (obs_route rs (fst (fst vs')))) []) (snd vs')
+                                    | inr _ => "None"%string
+                                    end) (combine vs ss) in
+        (* a rejected route / summary is named first (the full text follows) *)
+        let why := List.app
+                     (flat_map (fun v => match snd v with inr r => [(fst v ++ ": " ++ r)%string] | inl _ => [] end) vs)
+                     (flat_map (fun ns => if String.prefix "REJECT" (snd ns) then [(fst ns ++ ": " ++ snd ns)%string] else [])
+                               (combine (map fst vs) sums)) in
+        ((match why with [] => "" | w :: _ => w ++ " | " end)
+         ++ join " " (map (fun v => piece (fst v) (snd v)) vs) ++ " sums=[" ++ join "," sums ++ "]")%string
+  end.
+
 Definition judge (c : case_t Q) (impl_init : list float) (impl : outcome float) : string :=
   match build QN c with
   | Err cls => ("BuildErr " ++ cls)%string
@@ -440,6 +543,7 @@ Definition judge (c : case_t Q) (impl_init : list float) (impl : outcome float) 
   | Ok (inst, cm) =>
       match impl with
       | OBuildErr _ => "REJECT(implementation failed to build a valid configuration)"%string
+      | OMultiRoutes rs0 ts0 ss => judge_multi c inst cm impl_init rs0 ts0 ss
       | ORoutes rs0 ts0 s =>
           let rs := combine rs0 ts0 in
           let init := initial_state (i_sm inst) in
@@ -478,11 +582,7 @@ Definition judge (c : case_t Q) (impl_init : list float) (impl : outcome float) 
                    end)%string
               | _, _ => (piece "fwd" rf ++ " " ++ piece "rev" rr ++ " sum=None")%string
               end
-          | OMulti ess =>
-              (join " " (map (fun kes =>
-                               let nm := ("r" ++ show_nat (fst kes))%string in
-                               piece nm (judge_route inst cm K Forward a0 (snd kes) (obs_route rs nm)))
-                             (combine (seq 0 (List.length ess)) ess)) ++ " sum=None")%string
+          | OMulti _ | OEdge _ _ _ => "REJECT(one summary for an operation with several routes)"%string
           end
       end
   end.
